@@ -232,13 +232,16 @@ static Ans answer(const WB::World &w, const J &q)
   catch (const std::exception &) { a.threw = true; }
   return a;
 }
+// 1e-6 relative to the value or - where add / subtract operations let terms of ordinary size cancel - to the ordinary size of the
+// quantity (1000 K for the temperature in slot 0, 1 for fractions and grain entries): the terms carry the 1e-6 of a trench foot
+static bool close_value(size_t slot, double a, double b) { return close_rel(a, b, 1e-6, slot == 0 ? 1e-3 : 1e-6); }
 static bool same(const Ans &a, const Ans &b)
 {
   if (a.threw != b.threw) return false;
   if (a.threw) return true;
   if (a.tag != b.tag) return false;
   for (size_t i = 0; i < a.v.size(); ++i)
-    if (!close_rel(a.v[i], b.v[i], 1e-6, 1e-9)) return false;
+    if (!close_value(i, a.v[i], b.v[i])) return false;
   return true;
 }
 
@@ -324,7 +327,7 @@ static Result check_motion(const J &c)
       std::string what;
       if (a.threw != b.threw) what = a.threw ? "original threw, moved answered" : "moved threw, original answered";
       else if (a.tag != b.tag) what = "tag '" + a.tag + "' vs '" + b.tag + "'";
-      else for (size_t i = 0; i < a.v.size(); ++i) if (!close_rel(a.v[i], b.v[i], 1e-6, 1e-9)) { what = "value " + std::to_string(i) + ": " + fmt(a.v[i]) + " vs " + fmt(b.v[i]); break; }
+      else for (size_t i = 0; i < a.v.size(); ++i) if (!close_value(i, a.v[i], b.v[i])) { what = "value " + std::to_string(i) + ": " + fmt(a.v[i]) + " vs " + fmt(b.v[i]); break; }
       // classification of the root cause by the feature type that owns the point in the original world
       std::string owner = "?";
       for (auto &f : root.at("features").a) { const std::string tg = f.has("tag") ? f.at("tag").str() : f.at("model").str(); if (tg == a.tag || tg == b.tag) owner = f.at("model").str(); }
